@@ -118,6 +118,7 @@ func resetOptions() {
 	mxj.SetArraySize(0)
 	mxj.LeafUseDotNotation(false)
 	mxj.JsonUseNumber = false
+	mxj.CustomDecoder = nil
 	resetKeyPrefix()
 }
 
